@@ -51,6 +51,13 @@ def released_files() -> list[tuple[int, str]]:
     return out
 
 
+def released_bookkeeping_ddl() -> str:
+    """the schema_migrations table as RELEASED code created it (frozen copy): a database in the field keeps that table as it was
+    created - ``CREATE TABLE IF NOT EXISTS`` never changes it - whatever the DDL constant in the tree says today"""
+    d = os.path.join(os.path.dirname(os.path.dirname(os.path.abspath(__file__))), "data", "released_migrations")
+    return open(os.path.join(d, "schema_migrations.sql")).read()
+
+
 def schema(conn: sqlite3.Connection) -> dict[str, Any]:
     rows = conn.execute("SELECT type, name, tbl_name, sql FROM sqlite_master WHERE name NOT LIKE 'sqlite_%' ORDER BY type, name").fetchall()
     norm = [(t, n, tb, re.sub(r"\s+", " ", s or "").strip()) for t, n, tb, s in rows]
@@ -82,7 +89,7 @@ def build_start(path: str, start: tuple[str, int]) -> None:
         if ver <= k:
             conn.executescript(text)
     if kind == "prefix":
-        conn.executescript(M._SCHEMA_MIGRATIONS_DDL)
+        conn.executescript(released_bookkeeping_ddl())
         for ver, _ in files:
             if ver <= k:
                 conn.execute("INSERT INTO schema_migrations (package, version) VALUES ('server', ?)", (ver,))
@@ -120,7 +127,7 @@ def prefix_states(d: str) -> list[tuple[Any, Any]]:
         for k in range(0, len(files) + 1):
             p = os.path.join(d, f"prefix{k}.db")
             c = sqlite3.connect(p)
-            c.executescript(M._SCHEMA_MIGRATIONS_DDL)
+            c.executescript(released_bookkeeping_ddl())
             for ver, text in files:
                 if ver <= k:
                     c.executescript(text)
@@ -231,8 +238,13 @@ def work_multi(case: Any) -> Any:
         desc = f"start={start} sources={[n for n, _ in sources]} server-only run first={server_only_first}"
         if server_only_first:
             c = sqlite3.connect(path)
-            M.run_migrations(c)
-            c.commit()
+            try:
+                M.run_migrations(c)
+                c.commit()
+            except Exception as e:  # noqa: BLE001
+                v.append(("migration_run_fails", {**w, "run": "server_only_first"}, f"{desc}: the server-only run raised {type(e).__name__}: {e}"))
+                c.close()
+                return 1, 1, [(c_, w_, dd, None) for c_, w_, dd in v], None, 2
             c.close()
         prev = None
         for i in range(2):
